@@ -527,7 +527,7 @@ def _log_poly(func, p):
 
 
 VALUE_FUNCS = {"and", "or", "not", "cmp_lt", "cmp_le", "cmp_eq", "cmp_ne", "isnan", "isinf", "nparray", "zeros", "ones",
-               "where", "pylist", "unique", "sort", "map", "call:numpy.intersect1d", "setitem"}
+               "where", "pylist", "unique", "sort", "map", "call:numpy.intersect1d", "setitem", "m:split", "new:dict"}
 
 
 def _definitely_value(r):
